@@ -852,8 +852,11 @@ Section MNTM.
 Variable m : mntm.
 
 Definition wfs (c : mcfg) : Prop := Forall wf (snd c).
+(* no alternative to take: no entry, or an entry with an empty list of alternatives
+   (`if not possible_transitions`, mntm.py:259) *)
+Definition no_alts (o : option (list malt)) : Prop := o = None \/ o = Some [].
 Definition maccepting (z : mzcfg) : Prop :=
-  mt_final m z /\ mt_delta m (fst z) (zheads (snd z)) = None.
+  mt_final m z /\ no_alts (mt_delta m (fst z) (zheads (snd z))).
 
 Lemma maccepting_cong a b : mzcfg_eq a b -> maccepting a -> maccepting b.
 Proof.
@@ -910,7 +913,12 @@ Proof.
   intros Hwf. unfold mntm_expand.
   assert (Hh : map t_read (snd c) = zheads (snd (abs_mcfg c))) by apply heads_view.
   destruct (mt_delta m (fst c) (map t_read (snd c))) as [[|a0 rest]|] eqn:Hd.
-  - discriminate.
+  - rewrite Hh in Hd. destruct (memb (fst c) (mt_finals m)) eqn:Ef; [discriminate|].
+    intro H. inversion H; subst new. split; [|split].
+    + intros [Hf _]. apply memb_false in Ef. exact (Ef Hf).
+    + intros c' [].
+    + intros z [alts [q' [mv [Hd' [Hin _]]]]]. cbn [abs_mcfg fst] in Hd', Hd. rewrite Hd in Hd'.
+      inversion Hd'; subst alts. destruct Hin.
   - intro H. inversion H; subst new. clear H. rewrite Hh in Hd.
     assert (Hmem : forall c', In c' (map (mntm_apply c) rest ++ [mntm_apply c a0]) <->
                               exists a, In a (a0 :: rest) /\ c' = mntm_apply c a).
@@ -918,7 +926,7 @@ Proof.
       - intros [[a [Ha Hin]]|[Ha|[]]]; [exists a|exists a0]; auto.
       - intros [a [[Ha|Ha] Hc]]; subst; [right; left; reflexivity|left; exists a; auto]. }
     split; [|split].
-    + intros [_ Hn]. cbn [abs_mcfg fst] in Hn. rewrite Hd in Hn. discriminate.
+    + intros [_ Hn]. cbn [abs_mcfg fst] in Hn. rewrite Hd in Hn. destruct Hn; discriminate.
     + intros c' Hc'. apply Hmem in Hc'. destruct Hc' as [a [Ha ->]].
       destruct (mntm_apply_abs c a Hwf) as [Hw Hz]. split; [exact Hw|].
       exists (a0 :: rest), (fst a), (snd a). split; [exact Hd|]. split; [destruct a; exact Ha|].
@@ -939,20 +947,18 @@ Lemma expand_ok c cl : mntm_expand m c = inl (Ok cl) -> cl = c /\ maccepting (ab
 Proof.
   unfold mntm_expand.
   assert (Hh : map t_read (snd c) = zheads (snd (abs_mcfg c))) by apply heads_view.
-  destruct (mt_delta m (fst c) (map t_read (snd c))) as [[|a0 rest]|] eqn:Hd; try discriminate.
-  destruct (memb (fst c) (mt_finals m)) eqn:Ef; [|discriminate].
-  intro H. inversion H; subst. split; [reflexivity|]. split.
-  - apply memb_In. exact Ef.
-  - cbn [abs_mcfg fst]. rewrite <- Hh. exact Hd.
+  destruct (mt_delta m (fst c) (map t_read (snd c))) as [[|a0 rest]|] eqn:Hd; try discriminate;
+    (destruct (memb (fst c) (mt_finals m)) eqn:Ef; [|discriminate]);
+    intro H; inversion H; subst; (split; [reflexivity|]); (split; [apply memb_In; exact Ef|]);
+    cbn [abs_mcfg fst]; rewrite <- Hh, Hd; [right|left]; reflexivity.
 Qed.
 
-Lemma expand_err c e : mntm_expand m c = inl (Err e) ->
-  e = IndexErr /\ mt_delta m (fst c) (map t_read (snd c)) = Some [].
+(* one iteration never raises (the repaired code has no possible_transitions[0] on an empty list) *)
+Lemma expand_err c e : mntm_expand m c = inl (Err e) -> False.
 Proof.
   unfold mntm_expand.
-  destruct (mt_delta m (fst c) (map t_read (snd c))) as [[|a0 rest]|] eqn:Hd; try discriminate.
-  - intro H. inversion H. auto.
-  - destruct (memb (fst c) (mt_finals m)); discriminate.
+  destruct (mt_delta m (fst c) (map t_read (snd c))) as [[|a0 rest]|] eqn:Hd; try discriminate;
+    destruct (memb (fst c) (mt_finals m)); discriminate.
 Qed.
 
 Definition mreachable (w : list nat) (z : mzcfg) : Prop := exists k, mreach m k (mt_start m w) z.
@@ -980,7 +986,6 @@ Lemma mntm_bfs_sound w fuel : forall queue ys o,
   | Ok cl => In cl ys /\ maccepting (abs_mcfg cl)
   | Err Reject => True
   | Err Fuel => length ys = fuel
-  | Err IndexErr => exists c, In c ys /\ mt_delta m (fst c) (map t_read (snd c)) = Some []
   | Err _ => False
   end.
 Proof.
@@ -994,7 +999,7 @@ Proof.
       split; [intros c' [Hc'|[]]; subst; exact Hrc|]. split; [simpl; lia|].
       destruct o as [cl|e].
       * destruct (expand_ok _ _ He) as [-> Ha]. split; [left; reflexivity|exact Ha].
-      * destruct (expand_err _ _ He) as [-> Hd]. exists c. split; [left; reflexivity|exact Hd].
+      * exfalso. exact (expand_err _ _ He).
     + destruct (mntm_bfs m f (q ++ new)) as [ys1 o1] eqn:Er. intro H. inversion H; subst.
       destruct (expand_inr c new Hwf He) as [_ [Hnew _]].
       assert (Hq' : forall c', In c' (q ++ new) -> wfs c' /\ mreachable w (abs_mcfg c')).
@@ -1008,7 +1013,6 @@ Proof.
       * simpl. lia.
       * destruct o as [cl|[]]; try exact R3.
         -- destruct R3 as [R3 R4]. split; [right; exact R3|exact R4].
-        -- destruct R3 as [c' [R3 R4]]. exists c'. split; [right; exact R3|exact R4].
         -- simpl. lia.
 Qed.
 
@@ -1029,7 +1033,7 @@ Proof.
   - intro H. inversion H; subst. rewrite app_nil_r in *. split; [auto|exact Hcl].
   - destruct (mntm_expand m c) as [o'|new] eqn:He.
     + intro H. inversion H; subst. exfalso.
-      destruct (expand_err _ _ He) as [Hx _]. discriminate.
+      exact (expand_err _ _ He).
     + destruct (mntm_bfs m f (q ++ new)) as [ys1 o1] eqn:Er. intro H. inversion H; subst.
       assert (Hwc : wfs c) by (apply Hwf; apply in_app_iff; right; left; reflexivity).
       destruct (expand_inr c new Hwc He) as [Hna [Hnew Hall]].
@@ -1078,7 +1082,6 @@ Lemma mntm_stepwise_sound w fuel ys o : mntm_stepwise m fuel w = (ys, o) ->
   | Ok cl => In cl ys /\ maccepting (abs_mcfg cl)
   | Err Reject => forall k z, mreach m k (mt_start m w) z -> ~ maccepting z
   | Err Fuel => length ys = fuel
-  | Err IndexErr => exists c, In c ys /\ mt_delta m (fst c) (map t_read (snd c)) = Some []
   | Err _ => False
   end.
 Proof.
@@ -1100,6 +1103,16 @@ Proof.
     destruct (I2 c' Hc') as [Hn _]. apply Hn. eapply maccepting_cong; [apply mzcfg_eq_sym; exact He'|exact Hacc].
 Qed.
 
+(* the run of ANY table (final states with rows, entries without alternatives included) ends in one of
+   three ways: no exception other than rejection *)
+Lemma mntm_accepts_cases fuel w :
+  mntm_accepts m fuel w = Ok true \/ mntm_accepts m fuel w = Ok false \/ mntm_accepts m fuel w = Err Fuel.
+Proof.
+  unfold mntm_accepts. destruct (mntm_stepwise m fuel w) as [ys o] eqn:E.
+  destruct (mntm_stepwise_sound w fuel ys o E) as [_ [_ S3]]. simpl snd.
+  destruct o as [cl|e]; simpl; [auto|]. destruct e; try contradiction; simpl; auto.
+Qed.
+
 End MNTM.
 
 (* ================= validity, verdicts of the multitape machine ================= *)
@@ -1117,19 +1130,10 @@ Qed.
 
 Lemma valid_final_no_delta q ss : In q (mt_finals m) -> mt_delta m q ss = None.
 Proof.
-  intro Hq. unfold valid_mntm in Hvalid. apply andb_true_iff in Hvalid. destruct Hvalid as [H1 _].
+  intro Hq. pose proof Hvalid as H1. unfold valid_mntm in H1.
   rewrite forallb_forall in H1. specialize (H1 q Hq). apply negb_true_iff, memb_false in H1.
   unfold mt_delta. destruct (assoc q (mt_trans m)) as [row|] eqn:E; [|reflexivity].
   exfalso. apply H1. eapply assoc_Some_key. exact E.
-Qed.
-
-Lemma valid_nonempty q ss : mt_delta m q ss <> Some [].
-Proof.
-  unfold valid_mntm in Hvalid. apply andb_true_iff in Hvalid. destruct Hvalid as [_ H2].
-  rewrite forallb_forall in H2. unfold mt_delta.
-  destruct (assoc q (mt_trans m)) as [row|] eqn:E; [|discriminate].
-  intro Hs. apply assoc_In in E. apply assocl_In in Hs.
-  specialize (H2 _ E). simpl in H2. rewrite forallb_forall in H2. specialize (H2 _ Hs). discriminate.
 Qed.
 
 Definition mreach_final (w : list nat) : Prop :=
@@ -1147,8 +1151,7 @@ Proof.
     destruct (S1 cl Hin) as [k Hk]. exists k, (abs_mcfg cl). split; assumption.
   - destruct e; try contradiction; simpl.
     + split; [discriminate|]. split; [|auto]. intros _ [k [z [Hr Hf]]].
-      apply (S3 k z Hr). split; [exact Hf|]. apply valid_final_no_delta. exact Hf.
-    + exfalso. destruct S3 as [c [_ Hd]]. exact (valid_nonempty _ _ Hd).
+      apply (S3 k z Hr). split; [exact Hf|]. left. apply valid_final_no_delta. exact Hf.
     + split; [discriminate|]. split; [discriminate|auto].
 Qed.
 
@@ -1257,11 +1260,7 @@ Qed.
 Lemma valid_mntm_of_dtm : valid_dtm m = true -> valid_mntm (mntm_of_dtm m) = true.
 Proof.
   unfold valid_dtm, valid_mntm, mntm_of_dtm. cbn [mt_finals mt_trans]. intro H.
-  apply andb_true_iff. split.
-  - rewrite map_map. simpl. exact H.
-  - apply forallb_forall. intros qr Hqr. apply in_map_iff in Hqr. destruct Hqr as [qr0 [<- _]].
-    cbn [snd]. apply forallb_forall. intros e He. apply in_map_iff in He. destruct He as [sa [<- _]].
-    reflexivity.
+  rewrite map_map. simpl. exact H.
 Qed.
 
 Definition dreaches_final (w : list nat) : Prop := exists k, dreach_final m w k.
